@@ -346,7 +346,7 @@ class C11(fw.Property):
     gen_jobs = ["options_ext", "oscore_replay", "oscore_consts"]
     model_imports = ["Verif.Gen.oscore_replay", "Verif.Model.C11"]
     quick_budget = 400
-    thorough_budget = 12000
+    thorough_budget = 6000
     design_ref = "DESIGN.md section 16"
     technique = ("Coq proofs over an executable model of protect/unprotect parametrised by an ideal AEAD (round trip, non-interference of the outer message, "
                  "binding of responses, tamper detection, error totality), constants/option-field codec/replay window regenerated from source; "
@@ -357,7 +357,8 @@ class C11(fw.Property):
                   "response-to-request binding), nonce and AAD injectivity, only DecodeError/ProtectionInvalid/ReplayError/NotAProtectedMessage up to decryption. "
                   "All constants, the extended option-field codec and the replay window come from the source on every run; the hand-written model is tied to the "
                   "code by running both (with the same symbolic AEAD, and with stub AES-CCM) on scripted protect/tamper/unprotect scenarios.")
-    level_note = ("Partial: the round trip is proved for requests (C11_request_roundtrip_partial); for responses it is covered by the correspondence streams only. "
+    level_note = ("Partial: the round trip is proved for requests and for first responses (reused nonce); responses with an own Partial IV (notifications) / responses_send_kid "
+                  "are covered by the correspondence streams only. unprotect_finish does not model per-option value validation (invalid UTF-8 in an inner string option). "
                   "Cryptography is idealised (AEAD hypotheses, injective KDF) and stubbed (pure-Python AES-CCM/HKDF; the real cryptography wheel is not installed). "
                   "Not modelled: Group OSCORE, Proxy-Uri splitting in _split_message, Echo recovery (C12), key derivation. "
                   "_compress/_uncompress/_construct_nonce are hand-modelled (py2v.py does not support dicts, bytes*int, generator expressions); "
@@ -401,7 +402,7 @@ class C11(fw.Property):
                 base = [{"op": "protect", "ctx": 0, "msg": req, "rid": None, "kc": "default", "out": 1, "rout": 1}, {"op": "unprotect", "ctx": 1, "src": 1, "rid": None, "rout": 2},
                         {"op": "protect", "ctx": 1, "msg": resp, "rid": 2, "out": 3, "rout": 3}, {"op": "protect", "ctx": 1, "msg": resp, "rid": 2, "out": 4, "rout": 4}]
                 optlen_req = 1 + 2 + 1 + len(a["idctx"]) // 2 + len(a["sid"]) // 2
-                ctlen = 2 * 64 + 2 * 120 if not aes else 40
+                ctlen = 150 if not aes else 40
                 for src, rid_, ctx, nbytes in ((1, None, 1, optlen_req), (4, 1, 0, 2)):
                     for kind, n in (("optbit", nbytes), ("paybit", ctlen)):
                         for i in range(n):
@@ -499,6 +500,18 @@ class C11(fw.Property):
         """insider: a key holder encrypts arbitrary plaintext (symbolic AEAD only) — exercises the parsing after decryption"""
         a, b = gen_pair(rng, False); a["seq"] = min(a["seq"], 2 ** 40 - 2); ops = []
         def pt():
+            # string options with invalid UTF-8 make the real decoder raise UnparsableMessage; the model has no UTF-8 notion, so such
+            # plaintexts (reachable only by a key holder) are not generated
+            while True:
+                body = pt0()
+                try: _, os_, _ = parse_inner(body) if body else (0, [], b"")
+                except Exception: return body
+                try:
+                    for n, v in os_:
+                        if n in (3, 8, 11, 15, 20, 35, 39): v.decode("utf-8")
+                    return body
+                except UnicodeDecodeError: continue
+        def pt0():
             k = rng.random()
             if k < 0.15: return b""
             if k < 0.3: return bytes([rng.choice([1, 2, 69, 0, 255])])
